@@ -19,6 +19,16 @@ mod scalar {
     include!(concat!(env!("CARGO_MANIFEST_DIR"), "/../gen/api_table_scalar.rs"));
     include!("suite.rs");
 }
+/// the `libm` feature swaps the math shims (powf, exp, sin_cos, acos, rounding …) for their own code: a quarter of the volume
+#[cfg(not(feature = "core"))]
+mod libmv {
+    pub const VARIANT: &str = "libm";
+    pub const VOLUME_DIV: u32 = 4;
+    use ::glam_libm as glam;
+    include!(concat!(env!("CARGO_MANIFEST_DIR"), "/../apisupport/api_support.rs"));
+    include!(concat!(env!("CARGO_MANIFEST_DIR"), "/../gen/api_table_sse2.rs"));
+    include!("suite.rs");
+}
 /// `debug-glam-assert` without debug assertions is documented as a build without assertions: the same totality
 /// rule applies (an eighth of the volume; left out of the profiles that do enable debug assertions)
 #[cfg(not(feature = "core"))]
@@ -46,6 +56,8 @@ fn main() {
     subs.extend(simd::subs(&args));
     #[cfg(not(feature = "core"))]
     subs.extend(scalar::subs(&args));
+    #[cfg(not(feature = "core"))]
+    subs.extend(libmv::subs(&args).into_iter().filter(|s| s.name.starts_with("totality/")));
     #[cfg(not(feature = "core"))]
     if !cfg!(debug_assertions) {
         subs.extend(dbg::subs(&args));
